@@ -327,22 +327,61 @@ type c08Sender interface {
 	SendIQ(context.Context, *stanza.IQ) (chan stanza.IQ, error)
 }
 
-func (in *c08In) rejected(i int) bool { o := in.Ops[i]; return o.K == "sendiq" && !o.iqGetSet() }
+// iqID: the id a SendIQ request is registered under
+func (o c08Op) iqID() string {
+	if o.ID == "" {
+		return "noid"
+	}
+	return o.ID
+}
 
-// writeFails: for every op, whether it gets to a socket write and whether that write fails
-// (as seen by the caller: error, or short count under the logger), from the injected faults.
-func (in *c08In) writeFails() (attempted, failed []bool) {
-	attempted, failed = make([]bool, len(in.Ops)), make([]bool, len(in.Ops))
+// c08Plan: what the property's text lets one expect of each op of a history, in order.
+type c08Plan struct {
+	badType   bool // SendIQ of a type other than get/set
+	pending   bool // SendIQ (get/set) under an id that is still awaiting its response
+	attempted bool // gets to a socket write
+	failed    bool // ... which fails as seen by the caller (error, or short count under the stream logger)
+}
+
+func (p c08Plan) rejected() bool { return p.badType || p.pending }
+
+// plan: a request stays pending from a SendIQ that returned nil to the end of the case (nothing
+// answers it and its context is cancelled only then); one that failed is unregistered again.
+func (in *c08In) plan() []c08Plan {
+	ps := make([]c08Plan, len(in.Ops))
+	pend := map[string]bool{}
 	si := 0
+	up := in.Conn == 0 || in.Mode == "wsfault"
 	for i, o := range in.Ops {
-		attempted[i] = in.Conn == 0 && !in.rejected(i)
-		if !attempted[i] {
+		p := &ps[i]
+		if o.K == "sendiq" {
+			p.badType = !o.iqGetSet()
+			p.pending = !p.badType && pend[o.iqID()]
+		}
+		p.attempted = up && !p.rejected()
+		if !p.attempted {
 			continue
 		}
-		if f, ok := c08FaultAt(in.SockF, si); ok {
-			failed[i] = f.failsOn(len(o.data()), in.Log)
+		if in.Mode == "wsfault" {
+			p.failed = i >= in.FailFrom
+		} else if f, ok := c08FaultAt(in.SockF, si); ok {
+			p.failed = f.failsOn(len(o.data()), in.Log)
 		}
 		si++
+		if o.K == "sendiq" && !p.failed {
+			pend[o.iqID()] = true
+		}
+	}
+	return ps
+}
+
+func (in *c08In) rejected(i int) bool { return in.plan()[i].rejected() }
+
+// writeFails: for every op, whether it gets to a socket write and whether that write fails
+func (in *c08In) writeFails() (attempted, failed []bool) {
+	attempted, failed = make([]bool, len(in.Ops)), make([]bool, len(in.Ops))
+	for i, p := range in.plan() {
+		attempted[i], failed[i] = p.attempted, p.failed
 	}
 	return
 }
@@ -366,7 +405,7 @@ func (in *c08In) pushing() []c08Op {
 
 func c08PanicSig(in *c08In) string {
 	switch {
-	case in.Conn >= 3:
+	case in.Conn == 3 || in.Conn == 4:
 		return "send-panics-websocket-not-connected"
 	case in.SM && in.NoSess:
 		return "send-panics-sm-without-session"
@@ -409,8 +448,10 @@ func c08RunSeq(in *c08In) Sx {
 		queue = func() []string { return nil }
 	} else {
 		addr := "localhost:1"
-		if in.Conn >= 3 {
+		if in.Conn == 3 || in.Conn == 4 {
 			addr = "ws://" + c08ClosedPort() + "/xmpp-websocket"
+		} else if in.Conn == 5 {
+			addr = c08ClosedPort()
 		}
 		cfg := &xmpp.Config{TransportConfiguration: xmpp.TransportConfiguration{Address: addr, ConnectTimeout: 1}, Jid: "u@localhost", Credential: xmpp.Password("p"), StreamManagementEnable: in.SM}
 		c, err := xmpp.NewClient(cfg, router, func(error) {})
@@ -426,6 +467,11 @@ func c08RunSeq(in *c08In) Sx {
 			if _, err := xmpp.VerifTransport(c).Connect(); err == nil {
 				return L(SBytes("connect-to-closed-port-succeeded"))
 			}
+		case 5: // a connection attempt has failed: the send gate is closed, whatever the transport is
+			if err := xmpp.VerifClientConnect(c); err == nil {
+				return L(SBytes("connect-to-closed-port-succeeded"))
+			}
+			xmpp.VerifSetTransport(c, tr)
 		}
 		if !in.NoSess {
 			sm := xmpp.SMState{}
@@ -514,12 +560,17 @@ func c08IQTypeZ(t string) Sx {
 
 func c08OpsSx(in *c08In) Sx {
 	ops := make([]Sx, len(in.Ops))
+	pl := in.plan()
 	for i, o := range in.Ops {
 		switch o.K {
 		case "raw":
 			ops[i] = L(Z(1), SBytes(o.want()), B(o.nonza()))
 		case "sendiq":
-			ops[i] = L(Z(2), SBytes(o.want()), c08IQTypeZ(o.Typ))
+			if pl[i].pending {
+				ops[i] = L(Z(2), SBytes(o.want()), Z(3)) // an id still awaiting its response
+			} else {
+				ops[i] = L(Z(2), SBytes(o.want()), c08IQTypeZ(o.Typ))
+			}
 		default:
 			ops[i] = L(Z(0), SBytes(o.want()), B(o.nonza()))
 		}
@@ -534,7 +585,7 @@ func c08InputSeq(in *c08In) Sx {
 	if conn >= 3 {
 		conn = 2
 	}
-	return L(Z(0), L(B(in.Component), B(in.SM && !in.NoSess), B(in.Log), Zi(conn)), c08FaultsSx(in.SockF), L(), c08OpsSx(in))
+	return L(Z(0), L(B(in.Component), B(in.SM && !in.NoSess), B(in.Log), Zi(conn), B(in.Conn == 3 || in.Conn == 4)), c08FaultsSx(in.SockF), L(), c08OpsSx(in))
 }
 
 func c08FaultAt(fs []c08Fault, k int) (c08Fault, bool) {
@@ -818,10 +869,7 @@ func init() {
 	http.DefaultTransport = t
 }
 
-func (in *c08In) wsAttempted(i int) bool {
-	o := in.Ops[i]
-	return !(o.K == "sendiq" && !o.iqGetSet())
-}
+func (in *c08In) wsAttempted(i int) bool { return in.plan()[i].attempted }
 
 func c08RunWSFault(in *c08In) Sx {
 	sink, err := c08WSSink()
@@ -949,7 +997,7 @@ func c08InputWSFault(in *c08In) Sx {
 	if in.FailFrom >= len(in.Ops) {
 		k0 = len(in.Ops) + 1 // never
 	}
-	return L(Z(3), B(in.SM), Zi(k0), c08OpsSx(in))
+	return L(Z(3), B(in.SM), B(in.Log), Zi(k0), c08OpsSx(in))
 }
 
 // wsHeld: the delivered ops a client with stream management holds afterwards
@@ -1446,26 +1494,9 @@ func c08OracleStress(in *c08In, obs Sx) (string, string) {
 
 // ---------------------------------------------------------------- Property interface
 
-// uniqueIQIds: SendIQ refuses an id that is still awaiting its response (C07's subject); the
-// requests of one case get distinct, non-empty ids.
-func (in *c08In) uniqueIQIds() {
-	seen := map[string]bool{}
-	for i := range in.Ops {
-		o := &in.Ops[i]
-		if o.K != "sendiq" {
-			continue
-		}
-		if o.ID == "" || o.ID == "noid" || seen[o.ID] {
-			o.ID = fmt.Sprintf("%s#%d", o.ID, i)
-		}
-		seen[o.ID] = true
-	}
-}
-
 func (c08) Decode(raw json.RawMessage) (interface{}, error) {
 	in := &c08In{}
 	err := json.Unmarshal(raw, in)
-	in.uniqueIQIds()
 	if in.Mode == "seq" {
 		for i := range in.SockF {
 			if in.SockF[i].N > 2 {
@@ -1564,12 +1595,22 @@ func (c08) Key(inp interface{}) (string, bool) {
 		}
 		hist("cfg:" + role)
 		hist(fmt.Sprintf("cfg:logger=%v", in.Log))
-		hist([]string{"cfg:connected", "cfg:no-transport", "cfg:tcp-transport-never-connected", "cfg:ws-transport-never-connected", "cfg:ws-transport-dial-refused"}[in.Conn%5])
+		hist([]string{"cfg:connected", "cfg:no-transport", "cfg:tcp-transport-never-connected", "cfg:ws-transport-never-connected", "cfg:ws-transport-dial-refused", "cfg:send-gate-closed-after-failed-connect"}[in.Conn%6])
 		if in.NoSess {
 			hist("cfg:client-without-session")
 		}
 	}
 	writes := 0
+	if in.Mode == "seq" || in.Mode == "wsfault" {
+		for _, pl := range in.plan() {
+			if pl.pending {
+				hist("iq:refused-id-still-pending")
+			}
+			if pl.badType {
+				hist("iq:refused-type")
+			}
+		}
+	}
 	for _, o := range in.Ops {
 		n := o.Len + len(o.Raw)
 		fmt.Fprintf(&b, "%s%s/%s,", o.K, o.Typ, c08SizeClass(n))
@@ -1628,6 +1669,9 @@ func c08GenOp(r *rand.Rand, i int, big bool) c08Op {
 		o.K, o.Typ = "iq", []string{"get", "set", "result", "error"}[r.Intn(4)]
 	case c < 14:
 		o.K, o.Typ = "sendiq", []string{"get", "set", "result", "error", "get", "set"}[r.Intn(6)]
+		if r.Intn(2) == 0 {
+			o.ID = []string{"dup", "dup", "dup2", ""}[r.Intn(4)] // ids that recur within a history
+		}
 	case c < 15:
 		o = c08Op{K: []string{"smr", "smrp"}[r.Intn(2)]}
 	case c < 16:
@@ -1697,6 +1741,11 @@ func (c08) Gen(r *rand.Rand, tier string) []interface{} {
 		&c08In{Mode: "seq", NoSess: true, Conn: 2, Ops: []c08Op{{K: "msg", ID: "1"}, {K: "raw", Raw: "x"}}},
 		// WebSocket transport without a connection
 		&c08In{Mode: "seq", Conn: 3, Ops: []c08Op{{K: "msg", ID: "1"}, {K: "raw", Raw: "x"}, {K: "sendiq", ID: "3", Typ: "get"}}},
+		&c08In{Mode: "seq", Conn: 5, SM: true, Ops: []c08Op{{K: "msg", ID: "1"}, {K: "raw", Raw: "x"}, {K: "sendiq", ID: "3", Typ: "get"}, {K: "smr"}}},
+		&c08In{Mode: "seq", Conn: 5, Ops: []c08Op{{K: "msg", ID: "1"}, {K: "sendiq", ID: "3", Typ: "set"}}},
+		// the same id twice: the second request is refused while the first awaits its response
+		&c08In{Mode: "seq", SM: true, Ops: []c08Op{{K: "sendiq", ID: "a", Typ: "get"}, {K: "sendiq", ID: "a", Typ: "set"}, {K: "sendiq", ID: "b", Typ: "get"}, {K: "iq", ID: "a", Typ: "get"}}},
+		&c08In{Mode: "seq", Component: true, Ops: []c08Op{{K: "sendiq", ID: "a", Typ: "get"}, {K: "sendiq", ID: "a", Typ: "get"}, {K: "sendiq", ID: "a", Typ: "get"}}, SockF: []c08Fault{{K: 0, Kind: 1}}},
 		&c08In{Mode: "seq", Conn: 4, SM: true, Log: true, Ops: []c08Op{{K: "msg", ID: "1"}, {K: "raw", Raw: "x"}, {K: "sendiq", ID: "3", Typ: "set"}, {K: "sendiq", ID: "4", Typ: "result"}}},
 		&c08In{Mode: "seq", Ops: []c08Op{{K: "raw", Raw: "abc"}}, SockF: []c08Fault{{K: 0, Kind: 2, N: 1}}}, // short count, nil error, no logger: not reported (io.Writer contract broken by the socket)
 		&c08In{Mode: "logger", Ops: []c08Op{{K: "raw", Raw: ""}, {K: "raw", Raw: "abc"}, {K: "raw", Raw: "de"}}, SockF: []c08Fault{{K: 1, Kind: 2, N: 2}, {K: 2, Kind: 2, N: 2}}},
@@ -1715,7 +1764,7 @@ func (c08) Gen(r *rand.Rand, tier string) []interface{} {
 		if r.Intn(12) == 0 {
 			in.Conn = 1 + r.Intn(2)
 			if !in.Component && r.Intn(3) == 0 {
-				in.Conn = 3 + r.Intn(2)
+				in.Conn = 3 + r.Intn(3)
 			}
 		}
 		if !in.Component && r.Intn(10) == 0 {
@@ -1836,9 +1885,6 @@ func (c08) Gen(r *rand.Rand, tier string) []interface{} {
 		// a single sender (the wire must be its list) and many small senders
 		out = append(out, &c08In{Mode: "tcp", SM: true, Log: true, Senders: 1, PerSender: 40, MaxLen: 20000, Seed: r.Int63n(1 << 30)})
 		out = append(out, &c08In{Mode: "tcp", Senders: 16, PerSender: 50 + r.Intn(40), MaxLen: 2000, Seed: r.Int63n(1 << 30)})
-	}
-	for _, x := range out {
-		x.(*c08In).uniqueIQIds()
 	}
 	return out
 }
